@@ -113,11 +113,14 @@ def _add_cycle_free(model: "Model", fluxes: Dict[str, float]) -> None:
         if rxn.boundary:
             rxn.bounds = (flux, flux)
             continue
+        # a flux reported by the solver can lie outside the bounds by rounding
         if flux >= 0:
-            rxn.bounds = max(0, rxn.lower_bound), min(flux, rxn.upper_bound)
+            lower = max(0, rxn.lower_bound)
+            rxn.bounds = lower, max(lower, min(flux, rxn.upper_bound))
             objective_vars.append(rxn.forward_variable)
         else:
-            rxn.bounds = max(flux, rxn.lower_bound), min(0, rxn.upper_bound)
+            upper = min(0, rxn.upper_bound)
+            rxn.bounds = min(upper, max(flux, rxn.lower_bound)), upper
             objective_vars.append(rxn.reverse_variable)
 
     model.objective.set_linear_coefficients({v: 1.0 for v in objective_vars})
